@@ -300,3 +300,79 @@ func H_C25_builder_chains() {
 	}
 	vpAssert(evalMatcherNode(&m.root, sat) == truth, "C25: builder chain does not evaluate as the conjunction of its calls")
 }
+
+// Two builder chains seeded from one shared expression stay independent, and the shared tree is
+// left as it was: a group whose Children slice has spare capacity (as flattening or JSON decoding
+// produce) must not be grown in place by a chained call. The trees are evaluated through the
+// compiled matcher, so any aliasing between the two queries shows as a wrong condition list.
+//
+//vp:bounds a shared AND / OR group of 2 Field leaves whose Children slice has spare capacity 0..2; two chains Match(shared).<Field|Token|FieldToken>; evaluated after both were built; same for MatchRegex/FieldRegex
+func H_C25_builder_chains_sharing_a_tree_are_independent() {
+	spare := nondetChoice(3)
+	kids := make([]BloomExpression, 2, 2+spare)
+	t0, t1 := nondetBool(), nondetBool()
+	kids[0], kids[1] = Field("f0"), Field("f1")
+	shared := BloomExpression{ExpressionType: BloomExpressionAnd, Children: kids}
+	sharedTruth := vpAnd(t0, t1)
+	if nondetBool() {
+		shared.ExpressionType = BloomExpressionOr
+		sharedTruth = vpOr(t0, t1)
+	}
+	chain := func(k int) (*Query, rowConditionKind) {
+		qb := NewQuery().Match(shared)
+		switch k {
+		case 0:
+			return qb.Field("g").Build(), rowCondField
+		case 1:
+			return qb.Token("tok").Build(), rowCondToken
+		}
+		return qb.FieldToken("a", "tok").Build(), rowCondFieldToken
+	}
+	k1 := nondetChoice(3)
+	k2 := nondetChoice(3)
+	q1, kind1 := chain(k1)
+	q2, kind2 := chain(k2)
+	x1, x2 := nondetBool(), nondetBool()
+	check := func(q *Query, kind rowConditionKind, x bool) {
+		m := compileRowMatcher(q.Bloom, nil, ".", BasicWhitespaceLowerTokenizer)
+		vpAssert(len(m.conditions) == 3, "C25: a chained builder call lost or invented a condition")
+		vpAssert(m.conditions[0].field == "f0" && m.conditions[1].field == "f1" && m.conditions[2].kind == kind, "C25: a query built from a shared expression does not hold its own chained condition")
+		vpAssert(evalMatcherNode(&m.root, []bool{t0, t1, x}) == vpAnd(sharedTruth, x), "C25: builder chain does not evaluate as Match(e) AND its chained call")
+	}
+	check(q1, kind1, x1)
+	check(q2, kind2, x2)
+	vpAssert(len(shared.Children) == 2 && len(kids) == 2, "C25: building a query changed the caller's expression")
+	ms := compileRowMatcher(&BloomQuery{Expression: &shared}, nil, ".", BasicWhitespaceLowerTokenizer)
+	vpAssert(len(ms.conditions) == 2 && evalMatcherNode(&ms.root, []bool{t0, t1}) == sharedTruth, "C25: building a query changed the meaning of the caller's expression")
+	// the spare capacity of the caller's slice must not have been written either
+	full := kids[:cap(kids)]
+	for i := 2; i < len(full); i++ {
+		vpAssert(full[i].ExpressionType == "" && full[i].Condition == nil && full[i].Children == nil, "C25: a chained builder call wrote into the caller's slice")
+	}
+}
+
+//vp:bounds as above for MatchRegex / FieldRegex (regexp.Compile succeeds)
+func H_C25_regex_builder_chains_sharing_a_tree_are_independent() {
+	spare := nondetChoice(3)
+	kids := make([]RegexExpression, 2, 2+spare)
+	kids[0], kids[1] = FieldRegex("f0", "a"), FieldRegex("f1", "b")
+	shared := RegexExpression{ExpressionType: RegexExpressionAnd, Children: kids}
+	if nondetBool() {
+		shared.ExpressionType = RegexExpressionOr
+	}
+	q1 := NewQuery().MatchRegex(shared).FieldRegex("g1", "c").Build()
+	q2 := NewQuery().MatchRegex(shared).FieldRegex("g2", "d").Build()
+	last := func(q *Query) string {
+		e := q.Regex.Expression
+		vpAssert(e != nil && e.ExpressionType == RegexExpressionAnd && len(e.Children) >= 2, "C25: MatchRegex(e).FieldRegex(..) is not an AND group")
+		l := e.Children[len(e.Children)-1]
+		vpAssert(l.Condition != nil, "C25: chained regex condition missing")
+		return l.Condition.Field
+	}
+	vpAssert(last(q1) == "g1" && last(q2) == "g2", "C25: a regex query built from a shared expression does not hold its own chained condition")
+	vpAssert(len(shared.Children) == 2, "C25: building a regex query changed the caller's expression")
+	full := kids[:cap(kids)]
+	for i := 2; i < len(full); i++ {
+		vpAssert(full[i].ExpressionType == "" && full[i].Condition == nil && full[i].Children == nil, "C25: a chained builder call wrote into the caller's regex slice")
+	}
+}
